@@ -32,11 +32,11 @@ def main(tier, replay):
             J('pipeline-%s-maps-%s' % (n, 'reversed' if rev else 'forward'), n, 'HarnessPipeline', [0, 2, 1, 1, 1, 1, 0, 1, 0, 0], 1, rev=rev, stub=(n in ('p2', 'flat24')))
     J('sens-stale', 'p1', 'HarnessIsolation', [1, 1, 1, 1, 0, 1, 1], 1, expect='independent of recycled buffer content')
     jobs[-1]['no_native'] = True  # the seeded fault lives in the symbolic branch of the harness (stale bytes do not exist natively)
-    run_program_jobs(c, mod, infos, jobs, native_templates=NATIVE)
+    run_program_jobs(c, mod, infos, jobs, native_templates=NATIVE, race=True)  # native replays run under the race detector
     c.programs = len(P)
     mr = sum((jr.get('reach') or {}).get('map-range-over-2+-entries', 0) for j, jr, x in c.jobs)
     c.extra['map_ranges_over_two_or_more_entries_executed'] = mr
-    c.extra['schedules'] = 'NOT explored: goroutine interleavings and data races are outside this claim; race freedom is argued from (no access after Put) + (no package-level stores outside init) + A5, not checked'
+    c.extra['schedules'] = 'NOT explored symbolically: goroutine interleavings are outside this claim; race freedom is argued from (no access after Put) + (no write to memory reachable from package-level variables outside init) + A5. A monitor finding is confirmed natively by running separate instances on goroutines under the Go race detector (dynamic, not exhaustive)'
     c.bounds = {'workloads': '2 batches x 2 fixed-structure records with symbolic values, page size 1 and 2, each codec; whole pipeline with 2 records', 'pool pre-state': 'every buffer returned by either pool has capacity 0, 5 or 64 and arbitrary (symbolic) stale content',
                 'outside': 'interleavings of goroutines (the schedules half of the property); pools handing one buffer to two owners (A5)'}
     c.assumptions = [STUB_ASSUMPTIONS[k] for k in ('A1', 'A3', 'A4', 'A5', 'A6')]
